@@ -40,7 +40,7 @@ func Relay(name string, tags map[string]bool) *vtx.Profile {
 			if m.Allocs["c1"] == nil {
 				e = append(e, E("alloc", "c1", 0), vtx.Event{K: "alloc", C: "c1", L: -1, Fam: 6}, E("perm", "c1", 0, "A"), E("chan", "c1", N1, "A"))
 			} else {
-				e = append(e, vtx.Event{K: "refresh", C: "c1", L: 0},
+				e = append(e, vtx.Event{K: "refresh", C: "c1", L: 0}, vtx.Event{K: "refresh", C: "c1", L: -1},
 					E("perm", "c1", 0, "A"), E("perm", "c1", 0, "B"), E("perm", "c1", 0, "A", "B"), E("perm", "c1", 0, "V6"),
 					// mixed address families in one request, either order: refused as a whole whatever the allocation's family
 					E("perm", "c1", 0, "A", "V6"), E("perm", "c1", 0, "V6", "A"),
